@@ -66,12 +66,15 @@ class Site:
             d['__start_spelling__'] = self.start_spelling
         if self.inputs:
             d['__inputs__'] = self.inputs
+        if getattr(self, 'other_input', False):
+            d['__other_input__'] = True
         return d
 
     def start_urls(self):
         # the start URL as a user types it (upper case, default port, dot segment, fragment): `start_spelling`
         first = START_SPELLINGS[self.start_spelling % len(START_SPELLINGS)](self.start) if getattr(self, 'start_spelling', 0) else 'http://%s%s' % (HOST, self.start)
-        return [first] + ['http://%s/u%d' % (HOST, i) for i in range(self.inputs)]
+        other = ['http://%s/x' % OTHER] if getattr(self, 'other_input', False) else []     # an input on a second host, early in the list
+        return [first] + other + ['http://%s/u%d' % (HOST, i) for i in range(self.inputs)]
 
     @classmethod
     def from_desc(cls, desc):
@@ -80,6 +83,7 @@ class Site:
         s.start = desc.pop('__start__', '/')
         s.start_spelling = desc.pop('__start_spelling__', 0)
         s.inputs = desc.pop('__inputs__', 0)
+        s.other_input = desc.pop('__other_input__', False)
         for p, d in desc.items():
             d = dict(d)
             if 'links' in d:
